@@ -1,7 +1,7 @@
 /-
 Model of `randz/count.go`: `AddRule` (append, then `sort.Slice` by period — for the
 rule counts used here an insertion sort, i.e. stable), `Generate`, `Max`, `Min`,
-`getRand` (with the `uint32(max)` conversion) and `hashz.BKDRHash`.
+`getRand` (with the `uint64(max)` conversion of the repaired code) and `hashz.BKDRHash`.
 Go `int` is unbounded (`Int`); `/` is truncated division; division by zero = panic.
 -/
 import Golib.Proto
@@ -30,12 +30,13 @@ def bkdrHash (s : List Nat) : Nat :=
 /-- Go integer division: panics on a zero divisor. -/
 def goDiv (a b : Int) : Option Int := if b = 0 then none else some (Int.tdiv a b)
 
-/-- `getRand(n, max)`: `0` for `max == 0`, else `int(n % uint32(max) + 1)` (uint32 arithmetic;
-a `max` that is a non-zero multiple of 2^32 divides by zero). -/
+/-- `getRand(n, max)`: `0` for `max == 0`, else `int(uint64(n)%uint64(max)) + 1` (the code
+after the repair of F14; `uint64(max)` of a non-zero Go `int` is never 0, the `none` branch
+is only there because the model's `max` is an unbounded `Int`). -/
 def getRand (n : Nat) (max : Int) : Option Int :=
   if max = 0 then some 0 else
-  let m := (max % 2^32).toNat
-  if m = 0 then none else some (((n % m + 1) % 2^32 : Nat) : Int)
+  let m := (max % 2^64).toNat                      -- `uint64(max)`
+  if m = 0 then none else some (((n % m : Nat) : Int) + 1)
 
 /-- The loop of `Generate`. -/
 def genLoop (hn : Nat) (diff : Int) : List Rule → Int → Int → Option Int
